@@ -31,8 +31,9 @@ class TV:
 
 class StorageInterp:
     def __init__(self, arg_names: List[str], callable_args: Set[str], mutating_helpers: Dict[str, Set[int]], saved_names: Optional[Set[str]] = None,
-                 self_name: Optional[str] = None):
+                 self_name: Optional[str] = None, arg_attrs_alias: bool = False):
         self.self_name = self_name  # when set, `self.<attr>` reads are tensors owned by the object ("state")
+        self.arg_attrs_alias = arg_attrs_alias  # when set, `<argument>.<attr>` may be a view of the argument (distribution objects: mean, variance, ...)
         self.state_sids: Dict[str, int] = {}
         self.latest: Dict[int, int] = {}
         self.prov: Dict[int, str] = {}
@@ -101,6 +102,8 @@ class StorageInterp:
                 return TV(sid, self.latest[sid], "state")
             b = self.ev(e.value, content)
             if b is not None and e.attr in VIEW_ATTRS:
+                return TV(b.sid, self.latest[b.sid], b.prov)
+            if b is not None and self.arg_attrs_alias and b.prov == "arg":
                 return TV(b.sid, self.latest[b.sid], b.prov)
             return None
         if isinstance(e, ast.Subscript):
